@@ -45,6 +45,13 @@ XorV(v, s) == << WXor(v[1],s[1]), WXor(v[2],s[2]), WXor(v[3],s[3]), WXor(v[4],s[
 \* compression function: chaining value v, block = 64 bytes of pm at offset o
 CF(v, pm, o) == XorV(v, Rounds(v, Expand(WordsOf(pm, o))))
 
+\* ---- classification of a first block: does some round j >= 16 of its compression (from the IV) start with two of the registers fed to FF (A, B, C)
+\*      or to GG (E, F, G) equal, or use a zero message word W_j / W'_j?  (2^-26 per random block; the driver carries searched blocks) ----
+RoundSpecial(s, w, j) == s[1] = s[2] \/ s[2] = s[3] \/ s[1] = s[3] \/ s[5] = s[6] \/ s[6] = s[7] \/ s[5] = s[7]
+                         \/ w[j+1] = <<0,0>> \/ WXor(w[j+1], w[j+5]) = <<0,0>>
+RECURSIVE CoinR(_, _, _)
+CoinR(s, w, j) == IF j > 63 THEN FALSE ELSE (j >= 16 /\ RoundSpecial(s, w, j)) \/ CoinR(Round(s, w, j), w, j + 1)
+InternalCoincidence(block64) == CoinR(IV, Expand(WordsOf(block64, 0)), 0)
 \* ---- padding (standard): bit "1", k zero bits with l+1+k = 448 mod 512, 64-bit length ----
 \* byte level: 0x80, z zero bytes with (len+1+z) = 56 mod 64, eight length bytes.
 \* The length is given as lhi*2^24 + llo (llo < 2^24) so that bit lengths >= 2^32 are expressible in 32-bit TLC integers.
